@@ -87,6 +87,10 @@ func engineC19History(ctx *Ctx) {
 				continue
 			}
 			q := vlib.GenQuery(r, words, 1+r.Intn(3), 0)
+			if r.Intn(5) == 0 {
+				q = vlib.WithOddCase(r, q)
+				ctx.R.Path("history-queries-with-odd-case-mappings", 1)
+			}
 			o := database.SearchOptions{Limit: len(with.Commands) + 1, AllPlatforms: true, UseNLP: r.Intn(3) > 0}
 			cs := map[string]interface{}{"history": append([]string(nil), trace...), "query": q, "opts": vlib.OptsJ(o), "n": len(with.Commands)}
 			ctx.R.Begin(cs)
